@@ -5,6 +5,7 @@
 use std::io::Read;
 
 mod witnesses;
+mod bounded;
 
 fn main() {
     let args: Vec<String> = std::env::args().collect();
@@ -26,6 +27,7 @@ fn main() {
     let _ = (&tier, seed);
     let r = match name {
         n if n.starts_with("witness-") => witnesses::run(&n[8..]),
+        n if n.starts_with("bounded-") => bounded::run(&n[8..], &tier, seed),
         _ => { eprintln!("unknown check {name}"); std::process::exit(2) }
     };
     match r {
